@@ -3,6 +3,7 @@ use crate::number::Number;
 use crate::vm::vcell::VCell;
 use crate::vm::Vm;
 use std::collections::HashSet;
+use std::rc::Rc;
 
 impl Vm {
     /// eqv
@@ -48,7 +49,8 @@ impl Vm {
             (VCell::Nil, VCell::Nil) => Ok(true),
             (VCell::Pair(_, _), VCell::Pair(_, _)) => Ok(left == right),
             (VCell::Char(left), VCell::Char(right)) => Ok(left == right),
-            (VCell::String(left), VCell::String(right)) => Ok(left == right),
+            // a string is the same object only where it is the same location
+            (VCell::String(left), VCell::String(right)) => Ok(Rc::ptr_eq(left, right)),
             _ => Ok(false),
         }
     }
